@@ -278,6 +278,21 @@ def _tx_case(repo, it, S, spec):
     k, v = run(it, repo.fn("gene.interval:AbstractFeatureInterval.chromosome_location"), [], {}, part)
     if k != "ok" or sorted(blocks_of(v)) != sorted(exons) or strand_of(v).name != sn:
         out.append(("chromosome_location", f"{desc}: chromosome_location of the chunk-built twin -> {k}:{blocks_of(v) if k == 'ok' else v}", "gene.interval:AbstractFeatureInterval.chromosome_location"))
+    # moving an existing object onto the chunk (and the chunk-built one back onto the chromosome) gives the twin built there
+    fmv = repo.fn("gene.interval:AbstractInterval.liftover_to_parent_or_seq_chunk_parent")
+    for what, src_obj, target, twin in (("chromosome-built object moved onto the chunk", whole, pk, part), ("chunk-built object moved onto the chromosome", part, pc, whole)):
+        n += 1
+        km, moved = run(it, fmv, [target], {}, src_obj)
+        if km != "ok":
+            out.append(("liftover_to_parent_or_seq_chunk_parent", f"{desc}: {what} raises {moved}", fmv.qual))
+            continue
+        lm, lt = moved.fields["_location"], twin.fields["_location"]
+        shown = lambda l: "EmptyLocation" if is_empty_obj(l) else (blocks_of(l), strand_of(l).name)  # noqa: E731
+        kd1, d1 = run(it, f, [], {}, moved)
+        kd2, d2 = run(it, f, [], {}, twin)
+        if shown(lm) != shown(lt) or kd1 != kd2 or strip_opaque(d1) != strip_opaque(d2):
+            out.append(("liftover_to_parent_or_seq_chunk_parent", f"{desc}: {what} has location {shown(lm)} and the twin built there {shown(lt)}"
+                        + ("" if strip_opaque(d1) == strip_opaque(d2) else "; their dictionaries differ"), fmv.qual))
     loc = part.fields["_location"]
     inside = [p for p in enum_positions(list(exons), sn) if cs <= p < ce]
     if not inside:
